@@ -4,7 +4,7 @@
 name=$1; prop=$2
 cd /dev/shm/repo-head && git status --porcelain | grep -q . && { echo "repo-head dirty"; exit 9; }
 git -C /dev/shm/repo-head apply /verif/seeded/$name/patch.diff || exit 9
-cd /dev/shm/verif-frozen
+cd ${VERIF_FROZEN:-/dev/shm/verif-frozen}
 NUNAVUT_SRC=/dev/shm/repo-head/src VERIF_NO_EVIDENCE=1 VERIF_QUIET=1 VERIF_MINIMISE_RUNS=10 timeout 3000 ./check $prop --tier quick > /dev/shm/first-$name.log 2>&1
 rc=$?
 git -C /dev/shm/repo-head checkout -- . ; git -C /dev/shm/repo-head clean -fdq src
